@@ -1,4 +1,6 @@
-CONSTANTS NN = 2
+CONSTANTS FlawNoHopBound = TRUE
+ FlawStatelessHandle = TRUE
+ NN = 2
  MaxNodes = 0
  MaxDepth = 0
  QLen = 0
